@@ -69,6 +69,9 @@ def generate(prop, seed):
                 # (a cleanup or done callback may raise: the coordinator logs it
                 # and goes on, the recorded outcome is not affected)
                 progs[ti].append(['add_cleanup', rng.random() < 0.4])
+            elif r < 0.905:
+                # the user's view: future.result() once done has been announced
+                progs[ti].append(['fut_result'])
             elif r < 0.93:
                 progs[ti].append(['done'])
             elif r < 0.97:
@@ -86,7 +89,7 @@ def generate(prop, seed):
         # see set_result() half-way (the statement is about the state once done
         # is announced and about done(), which is a single read).
         sc['mode'] = 'lines'
-        sc['programs'] = [[op for op in p if op[0] not in ('status', 'exception')]
+        sc['programs'] = [[op for op in p if op[0] not in ('status', 'exception', 'fut_result')]
                           for p in progs]
     if r < 0.2:
         # statement-level pre-emption: no set_result / override, so the first
@@ -134,6 +137,8 @@ def model_step(state, op, args):
         if not done:
             return state, ('exc', 'TransferNotDoneError')
         return ('failed', ('E', args[0]), result), ('ok', None)
+    if op == 'fut_result':
+        return state, ('ok', ('X', exc) if exc is not None else ('R', result))
     if op == 'done':
         return state, ('ok', done)
     if op == 'status':
@@ -253,6 +258,18 @@ def execute(sc, choices=None, lenient=False):
                     name = last_cb[0]
                     h = record(k, (), lambda: coord.add_failure_cleanup(cb))
                     cb_registered[name] = h['ret']
+                elif k == 'fut_result':
+                    # (only once some announce_done() has returned: before that
+                    # result() would wait, which no program here can end)
+                    if any(a[1] is not None for a in announces):
+                        def call():
+                            try:
+                                return ('R', fut.result())
+                            except kernel.SimAbort:
+                                raise
+                            except BaseException as x:   # noqa
+                                return ('X', _exc_key(x))
+                        record(k, (), call)
                 elif k == 'done':
                     record(k, (), fut.done)
                 elif k == 'status':
